@@ -48,8 +48,11 @@ def _host_of(result):
     except Exception:
         return None
     if h and (h != h.strip() or " " in h):
-        return None   # a 'host' made of / containing whitespace (e.g. a cache tail starting with a space) is not a registered name: outside the domain
+        return _OUTSIDE   # a 'host' made of / containing whitespace (e.g. a cache tail starting with a space) is not a registered name: outside the domain
     return h or None
+
+
+_OUTSIDE = object()
 
 
 def eval_host_helpers(case):
@@ -61,6 +64,8 @@ def eval_host_helpers(case):
         n = normalize_url(u, normalize_amp=amp, infer_redirection=red)
         hn = get_normalized_hostname(u, normalize_amp=amp, infer_redirection=red)
         exp = _host_of(n)
+        if exp is _OUTSIDE:
+            exp = hn = None
         if exp is None and hn is not None and not hn.strip():
             hn = None
         if isinstance(normalize_url(u, normalize_amp=amp, infer_redirection=red, unsplit=False), str):
@@ -76,6 +81,8 @@ def eval_host_helpers(case):
             f = fingerprint_url(u, strip_suffix=ss)
             hf = get_fingerprinted_hostname(u, strip_suffix=ss, infer_redirection=True)
             exp = _host_of(f)
+            if exp is _OUTSIDE:
+                exp = hf = None
             if exp is None and hf is not None and not hf.strip():
                 hf = None
             if isinstance(fingerprint_url(u, strip_suffix=ss, unsplit=False), str):
@@ -97,12 +104,12 @@ def eval_bare(case):
         a = normalize_hostname(h, normalize_amp=amp)
         exp = _host_of(normalize_url("http://" + h.strip(), normalize_amp=amp, infer_redirection=False))
         case["_changed"] = a != h
-        if a != exp:
+        if exp is not _OUTSIDE and a != exp:
             out.append(("C07/normalize_hostname", "normalize_hostname(%r, normalize_amp=%s)=%r but the host of normalize_url('http://'+h) is %r" % (h, amp, a, exp)))
         if amp:
             b = fingerprint_hostname(h, strip_suffix=ss)
             exp = _host_of(fingerprint_url("http://" + h.strip(), strip_suffix=ss))
-            if b != exp:
+            if exp is not _OUTSIDE and b != exp:
                 out.append(("C07/fingerprint_hostname", "fingerprint_hostname(%r, strip_suffix=%s)=%r but the host of fingerprint_url('http://'+h) is %r" % (h, ss, b, exp)))
     except Exception as e:  # noqa
         out.append(("C07/raises", "bare hostname %r raised %r" % (h, e)))
